@@ -52,7 +52,8 @@ def _emit_fn(gen, root, fn, canary_false=False):
     # somewhere other than a `fn` item (a named local closure lifted to a function, rule R26 in vx/ovlrules.py)
     d = fn.locate(src, fired) if getattr(fn, 'locate', None) else src.find_fn(fn.scope, fn.name)
     r18 = 'R18' in getattr(fn, 'rules', ())
-    sig = X.rewrite_sig(X.r18_sig(d['sig'], fired) if r18 else d['sig'], fired, fn.ret_name)
+    sig0 = X.r18b_sig(d['sig'], src.src, fired) if 'R18b' in getattr(fn, 'rules', ()) else d['sig']
+    sig = X.rewrite_sig(X.r18_sig(sig0, fired) if r18 else sig0, fired, fn.ret_name)
     rules_ = getattr(fn, 'rules', ())
     gtok = getattr(fn, 'ghost_token', None) if 'R23' in rules_ else None      # dict(param=, arg=, callees=[..]); see extract.r23_*
     if gtok:
@@ -85,12 +86,22 @@ def _emit_fn(gen, root, fn, canary_false=False):
             body = X.r32_unwrap_or_else(body, fired)
         if 'R33' in rules_:
             body = X.r33_iter_map_collect(body, fired)
+        if 'R34' in rules_:
+            body = X.r34_continue_to_else(body, fired)
+        if 'R31' in rules_:      # Fn form of R31 (unit fusedevw): parenthesised block with explicit else
+            body = X.r31_result_inspect(body, fired, paren=True)
+        if 'R41' in rules_ or 'R42' in rules_:      # before R40: `.filter(..).fold(..)` is R41's
+            body = X.r41_r42_iter_filter(body, fired, rules_)
+        if 'R40' in rules_:
+            body = X.r40_iter_fold(body, fired)
         for hook in getattr(fn, 'body_hooks', ()):       # opt-in (units ovl_*): rewrite rules kept in vx/ovlrules.py, `hook(body, fired) -> body`; each logs what it did
             body = hook(body, fired)
         if gtok and gtok.get('callees'):
             body = X.r23_ghost_token_calls(body, fired, gtok['callees'], gtok['arg'])
         if gtok and gtok.get('path_callees'):
             body = X.r23_ghost_token_path_calls(body, fired, gtok['path_callees'], gtok['arg'])
+        if gtok and gtok.get('free_callees'):
+            body = X.r23_ghost_token_free_calls(body, fired, gtok['free_callees'], gtok['arg'])
         for (a, b) in fn.body_subst:
             if body.count(a) != 1:
                 raise X.ExtractError('ANCHOR-LOST body_subst in %s::%s: %r (%d)' % (fn.file, fn.name, a, body.count(a)))
@@ -503,6 +514,8 @@ def _describe_failure(gen, unit, d):
         ls, le = sp['line_start'], sp['line_end']
         txt = ' '.join(gen.lines[ls - 1:le])
         cm = txt.split('//', 1)[1] if '//' in txt else ''
+        if (sp.get('label') or '').startswith('at the end of the function body') and le > ls:
+            cm = ''      # the exit span of a fall-through body is the whole body: tag comments of ghost text spliced into it do not name the failing clause
         for t in TAG_RE.findall(cm):
             if t not in tags:
                 tags.append(t)
